@@ -153,6 +153,7 @@ func ReplayStorage(cs *StCase, target string, profile int, scratch string) (f *r
 		}
 	}
 
+	vecClobbered := false
 	put := func(k int, via string) error {
 		key := keys[k-1]
 		content := append([]byte{}, stContent(k, profile)...)
@@ -187,7 +188,22 @@ func ReplayStorage(cs *StCase, target string, profile int, scratch string) (f *r
 				err = commit(key)
 			case "vec":
 				third := len(content) / 3
-				err = storage.PutVec(ctx, st, key, [][]byte{content[:third], content[third : 2*third], content[2*third:]})
+				if k%2 == 1 {
+					err = storage.PutVec(ctx, st, key, [][]byte{content[:third], content[third : 2*third], content[2*third:]})
+				} else {
+					// the blobs share one backing array but do not lie in it in the order they are given: A | C | B in
+					// memory, handed over as A, B, C (a store that joins them in place must not clobber what it has not read)
+					a, bb, c := content[:third], content[third:2*third], content[2*third:]
+					base := make([]byte, 0, len(content)+8)
+					base = append(append(append(base, a...), c...), bb...)
+					blobs := [][]byte{base[:len(a)], base[len(a)+len(c):], base[len(a) : len(a)+len(c)]}
+					before := append([]byte{}, base...)
+					err = storage.PutVec(ctx, st, key, blobs)
+					if err == nil && !bytes.Equal(before, base) {
+						err = fmt.Errorf("verif: PutVec modified the caller's buffers")
+						vecClobbered = true
+					}
+				}
 			}
 		}
 		// the caller now reuses its buffer: stored bytes must be insulated from this
@@ -252,6 +268,9 @@ func ReplayStorage(cs *StCase, target string, profile int, scratch string) (f *r
 			perr = model.Safe(func() { err = put(s.K, s.Via) })
 			if perr != nil {
 				break
+			}
+			if vecClobbered {
+				return fail(i, "put/"+s.Via+":caller-buffers-untouched", "modified", fmt.Sprintf("key %q: storage.PutVec wrote into the byte slices it was given", keys[s.K-1])), checks, false
 			}
 			got := "ok"
 			if err != nil {
